@@ -176,9 +176,17 @@ def handlePaths : Handler := fun s =>
     let foldClashes := (pairs ips).filter fun (a, b) => a.2 != b.2 && asciiFold a.2 == asciiFold b.2
     let kernClash (p : (AnyId × List Nat) × (AnyId × List Nat)) : Bool :=
       isKern p.1.1 && isKern p.2.1 && agreeTwoDecimals (kernLoc p.1.1) (kernLoc p.2.1)
-    let oracle := clashes.isEmpty && foldClashes.isEmpty
+    -- every file is where its directory was created for it: named items one level down, the rest at top level
+    let depthOf (p : List Nat) : Nat := (p.filter (· == 0x2F)).length
+    let wantDepth : AnyId → Nat
+      | .fe (.glyph _) | .fe (.anchor _) | .be (.glyfFragment _) | .be (.gvarFragment _) => 1
+      | _ => 0
+    let misplaced := ips.filter fun (i, p) => depthOf p != wantDepth i
+    let oracle := clashes.isEmpty && foldClashes.isEmpty && misplaced.isEmpty
     let cls :=
-      if !clashes.isEmpty then
+      if !misplaced.isEmpty && clashes.all kernClash && foldClashes.isEmpty then
+        (if misplaced.all (fun (i, _) => isKern i) then "kern-file-tag-separator" else "path-outside-directory")
+      else if !clashes.isEmpty then
         (if clashes.all kernClash then "kern-location-2-decimals" else "path-collision")
       else if !foldClashes.isEmpty then "path-collision-ascii-caseless"
       else if !corr then "target_file" else ""
@@ -191,11 +199,16 @@ def handlePaths : Handler := fun s =>
     let tags := [s!"ids{min ids.length 40 / 10 * 10}+"] ++
       (if nKern ≥ 2 then ["kern-locations"] else []) ++
       (if closeKern then ["kern-close-pair"] else []) ++
+      (if !misplaced.isEmpty then ["separator-in-tag"] else []) ++
       (if ids.any (fun i => (kernLoc i).any fun e => decide ¬ e.1.printable) then ["raw-tag"] else []) ++
       (if ids.any (fun i => match i with | .be (.kernFragment _) => true | _ => false) then ["kern-fragment"] else []) ++
       (if nNamed ≥ 2 then ["named"] else [])
     let detail :=
-      if !clashes.isEmpty then
+      if !misplaced.isEmpty then
+        match misplaced.head? with
+        | some (i, p) => s!"path_with_unexpected_directory={repr (showCps p)} id={descId i}"
+        | none => ""
+      else if !clashes.isEmpty then
         match clashes.head? with
         | some (a, b) => s!"same_path={repr (showCps a.2)} a={descId a.1} b={descId b.1}"
         | none => ""
@@ -219,11 +232,14 @@ def handleEmit : Handler := fun s =>
       let plain ← word "plain_status"
       let emit ← word "emit_status"
       let same := plain == emit
+      let kernFile := (word "emit_failed_writing_kern_file") == some "true"
       some { corr := none, oracle := some same, nontrivial := false,
-             cls := if same then "" else "emit-ir-changes-outcome", tags := ["build-failed"],
+             cls := if same then "" else if plain == "ok" && kernFile then "kern-file-tag-separator" else "emit-ir-changes-outcome",
+             tags := ["build-failed"],
              detail := s!"plain={plain} emit={emit}" }
     else
       let fontsEqual := (← word "fonts_equal") == "true"
+      let plainVariants ← num "plain_variants"
       let nIds ← num "n_ids"
       let nFiles ← num "n_files"
       let missing ← num "ids_without_file"
@@ -235,6 +251,7 @@ def handleEmit : Handler := fun s =>
       let badKern ← num "readback_differs_kern_shared"
       let badPost ← num "readback_differs_post"
       let badEmpty ← num "readback_differs_empty_glyph"
+      let badFvar ← num "readback_differs_fvar"
       let notes := ((← impl.field1? "notes").asString?).getD ""
       -- the property on what the build left behind
       let oneFilePerId := missing == 0 && shared == 0 && unexpected == 0
@@ -242,7 +259,7 @@ def handleEmit : Handler := fun s =>
       let oracle := fontsEqual && oneFilePerId && faithful
       -- failure class: anything not yet explained first, then the recorded kinds
       let unexplained := !fontsEqual || missing != 0 || unexpected != 0 || shared != sharedKern ||
-        readBad != badKern + badPost + badEmpty
+        readBad != badKern + badPost + badEmpty + badFvar
       let cls :=
         if oracle then ""
         else if !fontsEqual then "emit-ir-changes-font"
@@ -250,12 +267,19 @@ def handleEmit : Handler := fun s =>
         else if unexplained then "readback-differs"
         else if sharedKern != 0 then "kern-location-2-decimals"
         else if badEmpty != 0 then "readback-empty-glyph"
+        else if badFvar != 0 then "readback-fvar-psname"
         else "readback-post-string-data"
+      if !fontsEqual && plainVariants > 1 then
+        -- the source does not build repeatably even without --emit-ir (C01's business): undecidable here
+        some { corr := none, oracle := none, nontrivial := false, cls := "", tags := ["nondeterministic-source"],
+               detail := s!"plain builds of this source differ among themselves ({plainVariants} variants seen)" }
+      else
       some { corr := none, oracle := some oracle, nontrivial := nIds ≥ 10 && readBack ≥ 5, cls := cls,
              tags := [s!"files{min nFiles 100 / 20 * 20}+"] ++ (if sharedKern > 0 then ["fail-kern-shared-file"] else []) ++
-               (if badPost > 0 then ["fail-post-readback"] else []) ++ (if badEmpty > 0 then ["fail-empty-glyph-readback"] else []),
+               (if badPost > 0 then ["fail-post-readback"] else []) ++ (if badEmpty > 0 then ["fail-empty-glyph-readback"] else []) ++
+               (if badFvar > 0 then ["fail-fvar-readback"] else []),
              detail := if oracle then "" else
-               s!"fonts_equal={fontsEqual} ids={nIds} files={nFiles} missing={missing} shared={shared} shared_kern={sharedKern} unexpected={unexpected} readback_differs={readBad} kern={badKern} post={badPost} empty_glyph={badEmpty} notes={notes.replace "\n" " "}" }
+               s!"fonts_equal={fontsEqual} ids={nIds} files={nFiles} missing={missing} shared={shared} shared_kern={sharedKern} unexpected={unexpected} readback_differs={readBad} kern={badKern} post={badPost} empty_glyph={badEmpty} fvar={badFvar} notes={notes.replace "\n" " "}" }
   r.getD (badInput "c14emit: cannot parse case")
 
 end Fontc.Driver.C14
